@@ -1071,4 +1071,125 @@ theorem spine_row_context (t : Tree) (hwf : t.wf = true) :
             (by rw [hn2, List.length_drop]; omega) ((hrows r' hr').2 h' hh') j (by rw [hn2]; exact hj)
           exact ⟨fuel', h'', d', hs'', hr'', fun p hp => shownRows_nested _ fuel h d r' h' hr' hh' p (hsub p hp), hrow⟩
 
+
+theorem mem_pushDown_frame (l : List Row) (r : Row) (hr : r ∈ l) : ∃ r', r' ∈ pushDown l ∧ r'.frame = r.frame := by
+  have : r.frame ∈ (pushDown l).map (·.frame) := by
+    rw [pushDown_frames]; exact List.mem_map_of_mem hr
+  obtain ⟨r', h1, h2⟩ := List.mem_map.mp this
+  exact ⟨r', h1, h2⟩
+
+/-- **a failed direct sub-evaluation of a call on the path is rendered, and so is its error** -/
+theorem failed_branch_shown (t : Tree) (hwf : t.wf = true) (fuel : Nat)
+    (hren : Renderable (replay (events t)) fuel 1)
+    (c b : CallInfo) (x : Nat) (hc : c ∈ callsOf (events t)) (hcr : c.result = some t.err)
+    (hb : b ∈ callsOf (events t)) (hbo : b.outer = some c.idx) (hbx : b.result = some x) :
+    (∃ p, p ∈ shownRows (replay (events t)) fuel 1 0 ∧ p.2.frame = b.idx) ∧
+    (∃ p, p ∈ shownRows (replay (events t)) fuel 1 0 ∧ p.2.error = some x) := by
+  have hwf' := hwf
+  simp only [Tree.wf, Bool.and_eq_true] at hwf'
+  obtain ⟨hck, ho⟩ := hwf'
+  have hstart : startOK t.err 1 t.root 1 = true := by simp [startOK, Tree.root, segRes, Kids.startsChained]
+  -- the call is on the path: it has a row at a rendered start
+  have hsp : (spine (callsOf (events t)) t.err).map (·.idx) = spineAt t.err 1 t.root 1 := by
+    rw [spine_events t ho]
+    simp [spineAt, Tree.root, spineK]
+  have hcs : c.idx ∈ spineAt t.err 1 t.root 1 := by
+    rw [← hsp]
+    exact List.mem_map_of_mem (List.mem_filter.mpr ⟨hc, by simp [hcr]⟩)
+  obtain ⟨fuel', h', d', hs', hr', hsub, rc, hrc, hrcf⟩ :=
+    spine_row_context t hwf _ fuel 1 0 hstart (Nat.le_refl _) hren c.idx hcs
+  rw [callsOf_events] at hc hb
+  have hrange' := startOK_range t.err t.root 1 h' hs'
+  obtain ⟨hb0, br, h1, h2, h3, h4, h5⟩ := row_branches_shown t.root none 1 h' true hrange'.1 (by simp) hck rc hrc
+    c hc hrcf.symm (by rw [hcr]; simp) b hb (by rw [hrcf]; exact hbo) x hbx
+  have hunp := unpack_startOK t hwf h' hs'
+  obtain ⟨_, hrows⟩ := hr'
+  rcases h5 with h5 | ⟨_, h6⟩
+  · -- the head of its chain segment is a branch of the row
+    obtain ⟨r', hr'm, hfb⟩ := mem_map_fb_unpack t hwf h' hs' rc hrc
+    have hbr : r'.branches = rc.branches := congrArg Prod.snd hfb
+    have hbm : hb0 ∈ r'.branches := by rw [hbr]; exact h5
+    have hrb := (hrows r' hr'm).2 hb0 hbm
+    cases fuel' with
+    | zero => simp [Renderable] at hrb
+    | succ f =>
+      have hrcge : 1 ≤ rc.frame := (rowsAt_frame_range t.root 1 h' rc hrc hrange'.1).1 |> fun h => by omega
+      have hunb : unpack (replay (events t)) hb0 = pushDown (rowsAt 1 t.root hb0) := by
+        rw [unpack_rowsAt t hck hb0 (by omega) (by omega)]
+        exact trimTail_all_error _ h4
+      have hin : ∀ p, p ∈ shownRows (replay (events t)) (f + 1) hb0 (d' + 1) → p ∈ shownRows (replay (events t)) fuel 1 0 :=
+        fun p hp => hsub p (shownRows_nested _ (f + 1) h' d' r' hb0 hr'm hbm p hp)
+      obtain ⟨rb, hrb1, hrb2⟩ := mem_pushDown_frame _ _ h3
+      obtain ⟨re, hre1, hre2⟩ := pushDown_error_exists _ _ x h3 rfl
+      exact ⟨⟨(d' + 1, rb), hin _ (shownRows_row _ f hb0 (d' + 1) rb (by rw [hunb]; exact hrb1)), hrb2⟩,
+        ⟨(d' + 1, re), hin _ (shownRows_row _ f hb0 (d' + 1) re (by rw [hunb]; exact hre1)), hre2⟩⟩
+  · -- the row has no branches: the rows go on with those of the head
+    have h3' := h6 _ h3
+    obtain ⟨rb, hrb1, hrb2⟩ := mem_pushDown_frame _ _ h3'
+    obtain ⟨re, hre1, hre2⟩ := pushDown_error_exists _ _ x h3' rfl
+    exact ⟨⟨(d', rb), hsub _ (shownRows_row _ fuel' h' d' rb (by rw [hunp]; exact hrb1)), hrb2⟩,
+      ⟨(d', re), hsub _ (shownRows_row _ fuel' h' d' re (by rw [hunp]; exact hre1)), hre2⟩⟩
+
+
+/-! ### the text of a tree (helpers of Props/C05Text) -/
+
+/-- the text of the model's trace, as the list of its lines -/
+def traceLines (t : Tree) (errText : Nat → Str) (width : Nat) : List Str :=
+  splitLines (traceText (events t) errText t.err width).toList
+
+theorem traceText_toList (evs : List Ev) (errText : Nat → Str) (e width : Nat) :
+    (traceText evs errText e width).toList =
+      formatTrace (replay evs) errText e width ((replay evs).size + 2) 1 0 none true := by
+  simp [traceText]
+
+/-- the frame store of a well-formed tree can be rendered with the fuel `traceText` gives -/
+theorem renderable_top (t : Tree) (hc : chainOk true t.root = true) :
+    Renderable (replay (events t)) ((replay (events t)).size + 2) 1 := by
+  apply renderable_tree t hc
+  · omega
+  · simp [Tree.root, Kids.size]; omega
+  · rw [(replay_frames t hc).1]; omega
+
+theorem frames_NoNL_spec (t : Tree) (hc : chainOk true t.root = true)
+    (hrepr : ∀ c, c ∈ callsOf (events t) → NoNL c.spec) (j : Nat) (f : Frame)
+    (hf : (replay (events t))[j]? = some f) : NoNL f.spec := by
+  rcases replay_frame_cases t hc j f hf with ⟨_, h, _⟩ | ⟨_, c, hcm, _, hs⟩
+  · rw [h]; intro c hc; simp at hc
+  · rw [← hs.1]; exact hrepr c hcm
+
+
+theorem unpack_root_head (t : Tree) (hwf : t.wf = true) :
+    ∃ r rest, unpack (replay (events t)) 1 = r :: rest ∧ r.frame = 1 := by
+  have hstart : startOK t.err 1 t.root 1 = true := by simp [startOK, Tree.root, segRes, Kids.startsChained]
+  rw [unpack_startOK t hwf 1 hstart]
+  have hne : (rowsAt 1 t.root 1).head?.map (·.frame) = some 1 := by
+    simp only [rowsAt, Tree.root, if_true, Kids.startsChained, Bool.false_eq_true, if_false]
+    cases lastHead none (1 + 1) t.kids <;> simp
+  have hfr := pushDown_frames (rowsAt 1 t.root 1)
+  cases hp : pushDown (rowsAt 1 t.root 1) with
+  | nil =>
+    rw [hp] at hfr
+    cases hr : rowsAt 1 t.root 1 with
+    | nil => rw [hr] at hne; simp at hne
+    | cons a l => rw [hr] at hfr; simp at hfr
+  | cons r rest =>
+    refine ⟨r, rest, rfl, ?_⟩
+    rw [hp] at hfr
+    cases hr : rowsAt 1 t.root 1 with
+    | nil => rw [hr] at hne; simp at hne
+    | cons a l =>
+      rw [hr] at hfr hne
+      simp only [List.map_cons, List.cons.injEq] at hfr
+      simp only [List.head?_cons, Option.map_some, Option.some.injEq] at hne
+      rw [hfr.1, hne]
+
+
+theorem frames_one_line (t : Tree) (hc : chainOk true t.root = true)
+    (hrepr : ∀ c, c ∈ callsOf (events t) → NoNL c.spec ∧ NoNL c.target) : FramesOneLine (replay (events t)) := by
+  intro j f hf
+  rcases replay_frame_cases t hc j f hf with ⟨_, h1, h2⟩ | ⟨_, c, hcm, _, hs⟩
+  · rw [h1, h2]; exact ⟨fun c hc => by simp at hc, fun c hc => by simp at hc⟩
+  · rw [← hs.1, ← hs.2.1]; exact hrepr c hcm
+
+
 end Glom.C05
